@@ -53,6 +53,7 @@ var expectedProbes = map[string][]string{
 	"C03": {"world_with_failing_statement", "world_with_host_write", "storer_history", "storer_history_with_two_type_switches_on_one_name"},
 	"C06": {"fault_requiring_error", "fault_with_open_outcome"},
 	"C07": {"receiver.FRESH", "receiver.READY", "receiver.CHOOSING", "receiver.PENDING", "receiver.ENDED", "receiver.sibling_path", "receiver.restored_before", "two_receivers_of_one_snapshot"},
+	"C09": {"trace_with_error_texts"},
 	"C10": {"shape.raw_prefilled", "shape.raw_buffered", "shape.raw_unbuffered", "shape.conv_none", "shape.conv_error", "shape.conv_chan", "shape.conv_rochan", "wait_polled_one_tick_before_deadline", "command_error_surfaced"},
 	"C11": {"node_left_three_times", "untracked_node_visited", "restore_then_jump", "world_with_failing_jumps"},
 	"C12": {"ended_by_stop_or_node_end", "end_with_statements_still_queued", "post_end_call_with_out_of_range_argument", "stop_inside_block_chain_6_to_12_deep"},
